@@ -58,7 +58,7 @@ CLAUSES = {
     "MJD = JDE - 2400000.5": "proved [B64, exact at 0h of every civil date]; other instants by correspondence/search",
     "mean sidereal time in [0,1)": "proved [ideal, every real JDE >= 0: C16_sidereal_ideal]; proved [B64, EVERY finite JDE in [0, 2^23]: C16_sidereal_b64 - the result is x % 1 of a finite float x >= 0 (all summands non-negative: jd0 is the preceding 0h), hence the exact fractional part, 0 <= r < 1; the 1.0 that float % 1 returns for tiny negative arguments cannot occur]; also kernel computation at 117 387 instants (every 100th day x 3 fractions; every 8th day in the thorough-only obligation)",
     "mean sidereal time agrees with IAU 1982 to 1e-7 day, rate 1.00273790935 turns/day": "proved [ideal, EVERY real JDE >= 0: C16_sidereal_ideal - the returned value is in [0,1) and congruent mod 1 to the independently transcribed IAU 1982 expression Spec.Sidereal.gmst_iau1982 (exactly; within TOL=1e-10 d after 0h the code returns the 0h value, stated as such), C16_sidereal_rate - [spec, true by definition of the transcribed expression] it advances by exactly 1.00273790935 turns/day within a civil day; tied to the code only through C16_sidereal_ideal]; proved [B64 vs exact rational IAU 1982 value, 1e-7 day] at the 117 387 instants; binary64 rounding for all JDE: unproved (searched)",
-    "apparent - mean sidereal time = equation of the equinoxes, under 1.2 s": "proved [ideal: C16_apparent_ideal - apparent = mean + dpsi*3600*cos(eps)/15/86400 for arbitrary nutation dpsi and obliquity eps given as floats or Angles; this restates the code's own formula (pins the units and the /15 and /86400 factors), it is not an independent property; the hypothesis 'mean_sidereal_time returns VFloat s' is satisfiable for every JDE >= 0 by C16_sidereal_ideal]; the size bound 1.2 s: proved [ideal, T = (JDE-2451545)/36525 in [-10.5, 8.5] centuries = years 950..2850: C16_equation_of_equinoxes - for every nutation in longitude |dpsi| <= 17.1996 + 0.01742|T| + 2.25 arcsec and true obliquity = Laskar mean obliquity + deps, |deps| <= 11 arcsec, apparent_sidereal_time(Angle eps, Angle dpsi) - mean_sidereal_time is below 1.2 s (C16_equation_of_equinoxes_bound: interval arithmetic on the obliquity polynomial); these two bounds are exactly what the C08 check proves about pymeeus.Coordinates.nutation_longitude / true_obliquity on the regenerated code (C08_nutation_longitude_main_term + C08_nutation_remainders, C08_true_obliquity_closed) - Coordinates is outside this property's model, so they enter as hypotheses here, not by a Coq import; the range is the largest the worst-case amplitude bound allows (the same bound gives 1.2001 s at T = -11 and 1.2003 s at T = 9)]; outside years 950..2850 and in binary64: unproved (searched; correspondence + oracle over JDE in [0, 5.4e6]); known finding equation-of-equinoxes-exceeds-1.2s-far-epochs (up to ~1.204 s outside years -2000..4000)",
+    "apparent - mean sidereal time = equation of the equinoxes, under 1.2 s": "proved [ideal: C16_apparent_ideal - apparent = mean + dpsi*3600*cos(eps)/15/86400 for arbitrary nutation dpsi and obliquity eps given as floats or Angles; this restates the code's own formula (pins the units and the /15 and /86400 factors), it is not an independent property; the hypothesis 'mean_sidereal_time returns VFloat s' is satisfiable for every JDE >= 0 by C16_sidereal_ideal]; the size bound 1.2 s: proved [ideal, T = (JDE-2451545)/36525 in [-10.5, 8.5] centuries = years 950..2850: C16_equation_of_equinoxes - for every nutation in longitude |dpsi| <= 17.1996 + 0.01742|T| + 2.25 arcsec and true obliquity = Laskar mean obliquity + deps, |deps| <= 11 arcsec, apparent_sidereal_time(Angle eps, Angle dpsi) - mean_sidereal_time is below 1.2 s (C16_equation_of_equinoxes_bound: interval arithmetic on the obliquity polynomial); these two bounds are exactly what the C08 check proves about pymeeus.Coordinates.nutation_longitude / true_obliquity on the regenerated code (C08_nutation_longitude_main_term + C08_nutation_remainders, C08_true_obliquity_closed) - Coordinates is outside this property's model, so they enter as hypotheses here, not by a Coq import; the fully linked statement (apparent_sidereal_time applied to what the generated true_obliquity / nutation_longitude return, same range) is theorem C08_equation_of_equinoxes of the C08 check, whose model contains Coordinates and Epoch; the range is the largest the worst-case amplitude bound allows (the same bound gives 1.2001 s at T = -11 and 1.2003 s at T = 9)]; outside years 950..2850 and in binary64: unproved (searched; correspondence + oracle over JDE in [0, 5.4e6]); known finding equation-of-equinoxes-exceeds-1.2s-far-epochs (up to ~1.204 s outside years -2000..4000)",
 }
 
 
